@@ -204,6 +204,27 @@ def main(ck, tier, w):
             ck.violation('%d runs over one data directory whose index has %d equally good tips gave %d different results' % (len(rs), ntips, len(variants)),
                          {'records': recs, 'distinct_outputs': len(variants), 'exit_codes': sorted({r.rc for r in rs}), 'tags': []})
 
+    # ---- sums beyond the u64 range: whatever the parser does with them (abort, wrap), it does the same in every run ----
+    addr = btc.p2pkh(b'\x11' * 20)
+    ovals = [2 ** 63 + 11, 2 ** 63 + 22, 7, 2 ** 64 - 1, 5]
+    oblocks = chains.std_chain(len(ovals), coin, txs_fn=lambda h, c: [btc.coinbase(h, None, outs=[{'val': ovals[h], 'spk': addr}, {'val': 50 * 10 ** 8, 'spk': btc.p2pkh(b'\x22' * 20)}])])
+    od = datadir.simple_dir(w.sub('dd'), oblocks, coin).write()
+    for cb, end in (('balances', 1), ('balances', 2), ('balances', None), ('unspentcsvdump', None)):
+        def orun(i):
+            dd = w.sub('cl')
+            shutil.copytree(od, dd)
+            r = run.run_parser(dd, cb, dump=w.mk('out'), end=end, threads=[1, 4, 16][i % 3])
+            shutil.rmtree(dd, ignore_errors=True)
+            return r
+        rs = chains.pmap(orun, range(10 if quick else 40), 5)
+        ck.evals(len(rs))
+        ck.distinct(('overflow', cb, end))
+        variants = {(r.rc, tuple(sorted((k, tuple(sorted(v.splitlines()))) for k, v in r.files.items()))) for r in rs}
+        if len(variants) != 1:
+            ck.violation('%d runs of %s over one data directory in which the outputs of one address add up to more than 2^64 gave %d different results'
+                         % (len(rs), cb, len(variants)), {'values': ovals[:(end + 1) if end is not None else None], 'callback': cb,
+                                                         'results': [[v[0], [list(x[1])[:4] for x in v[1]]] for v in variants], 'tags': []})
+
     # ---- dump folder pre-states and repeated runs on one data directory ------------------------------
     blocks2 = chains.std_chain(6, coin)
     dd = datadir.simple_dir(w.sub('dd'), blocks2, coin).write()
